@@ -349,6 +349,67 @@ def t_bits_subopts(F, R):
                 "; ".join("%#04x -> %s" % b for b in bad[:3])), where="v3::subscribe::Subscribe::decode_async")
 
 
+def _encode_sub_byte(F, fam, opt, sep):
+    """Evaluate <Subscribe as Encodable>::encode as a whole on a SUBSCRIBE with exactly one entry (filter with the cached share
+    separator `sep`, options / requested QoS `opt`): the bytes written after the filter's bytes."""
+    fid = F.impl_method("Encodable", "%s::subscribe::Subscribe" % fam, "encode")
+    if fid is None:
+        raise AnchorLost("Encodable for %s::subscribe::Subscribe" % fam)
+    trace = []
+
+    def hook(d, res, args, node, env):
+        r = res or d
+        name = node["fn"].get("name")
+        if r in ("common::utils::write_u8", "common::utils::write_u16", "common::utils::write_u32"):
+            trace.append((r.rsplit("_", 1)[1], args[1]))
+            return ok(UNIT)
+        if r == "common::utils::write_bytes":
+            trace.append(("bytes", args[1]))
+            return ok(UNIT)
+        if name == "encode" and len(args) == 2 and isinstance(args[0], Sym):
+            trace.append(("encode", args[0]))
+            return ok(UNIT)
+        if name in ("as_bytes", "as_str", "deref", "as_ref") and len(args) == 1 and r not in F.fns:
+            return args[0]
+        return None
+    filt = Adt("common::types::TopicFilter", "TopicFilter", {"inner": Sym("FILTER"), "shared_filter_sep": sep})
+    fields = {"pid": Adt("common::types::Pid", "Pid", {"0": 7}), "topics": Tup([Tup([filt, opt])])}
+    if fam == "v5":
+        fields["properties"] = Sym("PROPS")
+    sub = Adt("%s::subscribe::Subscribe" % fam, "Subscribe", fields)
+    try:
+        r = PE(F, call_hook=hook, cond_hook=lambda what, node: True if what[0] == "try-ok" else None, fuel=400).call_fn(fid, [sub, Sym("WRITER")])
+    except Undecided as e:
+        raise AnchorLost("%s cannot be evaluated for the entry (%s, %r): %s" % (fid, "shared filter" if sep else "plain filter", opt, e))
+    if result_kind(r)[0] != "ok":
+        return ("other", repr(r)[:100])
+    idx = [i for i, t in enumerate(trace) if t[0] == "bytes"]
+    if len(idx) != 1:
+        return ("other", "filter written %d times" % len(idx))
+    return ("ok", trace[idx[0] + 1:])
+
+
+def t_bits_subenc(F, R):
+    """The byte that follows each topic filter in an encoded SUBSCRIBE is the specification's option byte of that entry's
+    options (v5: all 36 option values; v3: the requested QoS), whatever the filter -- shared or not."""
+    n = 0
+    for o in _sub_options_values(F):
+        for sep in (0, 6):
+            got = _encode_sub_byte(F, "v5", o, sep)
+            n += 1
+            R.check(got == ("ok", [("u8", _spec_sub_byte(o))]), "T-bits", "subscription-options/encode-entry/%s%s" % (_spec_sub_byte(o), "-shared" if sep else ""),
+                    "v5 Subscribe::encode writes %r after a %s filter with options %r; the specification's option byte is %#04x" % (
+                        got[1], "shared" if sep else "plain", o, _spec_sub_byte(o)), where="v5::subscribe::Subscribe::encode")
+    for q in (0, 1, 2):
+        for sep in (0, 6):
+            got = _encode_sub_byte(F, "v3", Adt("common::types::QoS", "Level%d" % q), sep)
+            n += 1
+            R.check(got == ("ok", [("u8", q)]), "T-bits", "v3/subscribe-qos-byte/encode/%d%s" % (q, "-shared" if sep else ""),
+                    "v3 Subscribe::encode writes %r after a %s filter with requested QoS %d" % (got[1], "shared" if sep else "plain", q),
+                    where="v3::subscribe::Subscribe::encode")
+    R.floor("T-bits", "subscribe entries encoded", n, 78)
+
+
 # ---- T-bits: CONNECT flags ---------------------------------------------------------------------------------------------
 
 def _connect_decode(F, fam, flags):
